@@ -38,44 +38,57 @@ def _pauli_string(s):
     return m
 
 
-def build_vqa(w):
-    """Real VQA object from a witness {nq, layers, blocks:[{kind,nterms,initial[,paulis]}], seed}."""
+def make_block(w, j, b):
+    """block number j of the witness (matrices are a function of (seed, j) only)"""
     qutip, vqa = _impl()
-    nq, L = w["nq"], w["layers"]
+    nq = w["nq"]
     d = 2 ** nq
     dims = [[2] * nq, [2] * nq]
-    v = vqa.VQA(nq, L, cost_method={"o": "OBSERVABLE", "s": "STATE", "b": "BITSTRING"}[w.get("cm", "o")])
     natives = [(g, [q]) for q in range(nq) for g in NATIVE_1Q]
-    for j, b in enumerate(w["blocks"]):
-        rng = np.random.default_rng([int(w.get("seed", 0)), j, 19])
-        k, ini = b["kind"], bool(b["initial"])
-        if k == "h":
-            blk = vqa.VQABlock(qutip.Qobj(_herm(rng, d), dims=dims), initial=ini)
-        elif k == "u":
-            h = _herm(rng, d)
-            ev, evec = np.linalg.eigh(h)
-            u = evec @ np.diag(np.exp(-1j * ev)) @ evec.conj().T
-            blk = vqa.VQABlock(qutip.Qobj(u, dims=dims), is_unitary=True, initial=ini)
-        elif k == "n":
-            g, t = natives[j % len(natives)]
-            blk = vqa.VQABlock(g, targets=t, initial=ini, name=None)
-        elif k == "p":
-            if b.get("paulis"):
-                terms = [qutip.Qobj(_pauli_string(s), dims=dims) for s in b["paulis"]]
-                const = None
-            else:
-                terms = [qutip.Qobj(_herm(rng, d), dims=dims) for _ in range(b["nterms"])]
-                const = qutip.Qobj(_herm(rng, d), dims=dims) if (j % 2 == 0 or not terms) else None
-            blk = vqa.VQABlock(vqa.ParameterizedHamiltonian(terms, const), initial=ini)
-        elif k == "f":
-            H = qutip.Qobj(_herm(rng, d), dims=dims)
-            blk = vqa.VQABlock((lambda H: (lambda t: (-1j * t * H).expm()))(H), initial=ini)
+    rng = np.random.default_rng([int(w.get("seed", 0)), j, 19])
+    k, ini = b["kind"], bool(b["initial"])
+    if k == "h":
+        return vqa.VQABlock(qutip.Qobj(_herm(rng, d), dims=dims), initial=ini)
+    if k == "u":
+        h = _herm(rng, d)
+        ev, evec = np.linalg.eigh(h)
+        u = evec @ np.diag(np.exp(-1j * ev)) @ evec.conj().T
+        return vqa.VQABlock(qutip.Qobj(u, dims=dims), is_unitary=True, initial=ini)
+    if k == "n":
+        g, t = natives[j % len(natives)]
+        return vqa.VQABlock(g, targets=t, initial=ini, name=None)
+    if k == "p":
+        if b.get("paulis") is not None:
+            terms = [qutip.Qobj(_pauli_string(s), dims=dims) for s in b["paulis"]]
+            const = qutip.Qobj(_pauli_string(b["const"]), dims=dims) if b.get("const") else None
         else:
-            raise ValueError("unknown block kind " + k)
-        v.add_block(blk)
-    rng = np.random.default_rng([int(w.get("seed", 0)), 1000, 19])
+            terms = [qutip.Qobj(_herm(rng, d), dims=dims) for _ in range(b["nterms"])]
+            const = qutip.Qobj(_herm(rng, d), dims=dims) if (j % 2 == 0 or not terms) else None
+        return vqa.VQABlock(vqa.ParameterizedHamiltonian(terms, const), initial=ini)
+    if k == "f":
+        H = qutip.Qobj(_herm(rng, d), dims=dims)
+        return vqa.VQABlock((lambda H: (lambda t: (-1j * t * H).expm()))(H), initial=ini)
+    raise ValueError("unknown block kind " + k)
+
+
+def make_observable(w):
+    qutip, _ = _impl()
+    nq = w["nq"]
+    rng = np.random.default_rng([int(w.get("seed", 0)) + int(w.get("obs_shift", 0)), 1000, 19])
+    return qutip.Qobj(_herm(rng, 2 ** nq), dims=[[2] * nq, [2] * nq])
+
+
+CM_NAME = {"o": "OBSERVABLE", "s": "STATE", "b": "BITSTRING"}
+
+
+def build_vqa(w):
+    """Real VQA object from a witness {nq, layers, blocks:[{kind,nterms,initial[,paulis,const]}], seed[,cm,obs,func,obs_shift]}."""
+    qutip, vqa = _impl()
+    v = vqa.VQA(w["nq"], w["layers"], cost_method=CM_NAME[w.get("cm", "o")])
+    for j, b in enumerate(w["blocks"]):
+        v.add_block(make_block(w, j, b))
     if w.get("obs", 1):
-        v.cost_observable = qutip.Qobj(_herm(rng, d), dims=dims)
+        v.cost_observable = make_observable(w)
     if w.get("func", 0):
         v.cost_func = lambda x: SENTINEL
     return v
@@ -320,6 +333,31 @@ def special_angles(rng, nfree, count):
             yield a
 
 
+# term lists where consecutive terms commute but a non-consecutive pair does not (and all other orderings)
+COMM_SETS = {1: [["X", "I", "Z"], ["X", "Y", "Z"], ["Z", "I", "Y"], ["X", "I", "Z", "I"]],
+             2: [["XI", "IZ", "ZI"], ["XI", "II", "ZI"], ["XX", "ZZ", "ZI"], ["YI", "IY", "ZZ"], ["XI", "IZ", "ZI", "IX"],
+                 ["ZI", "II", "IZ", "XI"]]}
+
+
+def commuting_witnesses():
+    """all orderings of small Pauli-string sets (identity terms included) as 3-4 parameterised terms, and the same sets
+    with the last element of the ordering as the CONSTANT term"""
+    n = 0
+    for nq, sets in COMM_SETS.items():
+        for base in sets:
+            for perm in sorted(set(itertools.permutations(base))):
+                for with_const in (False, True):
+                    n += 1
+                    terms = list(perm[:-1]) if with_const else list(perm)
+                    blk = {"kind": "p", "nterms": len(terms), "initial": False, "paulis": terms}
+                    if with_const:
+                        blk["const"] = perm[-1]
+                    blocks = [blk]
+                    if n % 3 == 1:
+                        blocks = [{"kind": "h", "nterms": 0, "initial": True}] + blocks
+                    yield {"nq": nq, "layers": 1 + n % 2, "blocks": blocks, "seed": 9000 + n}
+
+
 def pauli_witness(rng, n):
     """structure with a multi-parameter Pauli-string ParameterizedHamiltonian (degenerate at many special points)"""
     nq = 1 + n % 3
@@ -338,14 +376,18 @@ def pauli_witness(rng, n):
 
 # ------------------------------------------------------------------------------------------------
 # histories: several calls on ONE VQA object with ONE parameter container that is updated in place between calls
-def make_history(rng, nfree, nsteps=None):
+def make_history(rng, nfree, nsteps=None, w=None):
     """-> {"container": "list"|"array", "start": [...], "steps": [{"fresh": bool, "set": [[i, v], ..], "op": "jac"|"eval"|"state",
-    "idx": None|[..]}]}; "set" assigns coordinates IN PLACE before the call, "fresh" first replaces the container by a new
-    one with equal values"""
+    "idx": None|[..], "cfg": [[attr, value], ..], "pad": [..]}]}; "set" assigns coordinates IN PLACE before the call, "fresh"
+    first replaces the container by a new one with equal values, "cfg" assigns PUBLIC attributes of the VQA object before the
+    call (num_layers, cost_method, cost_observable, add_block) and "pad" supplies the values of new coordinates when the number
+    of free parameters grew.  With `w` (the witness) given, the pattern may be "config"."""
     start = [round(rng.uniform(-3.0, 3.0), 4) for _ in range(nfree)]
     steps = []
     nsteps = nsteps or rng.randint(3, 6)
-    pattern = rng.choice(["descent", "sweep", "eval-then-jac", "mixed"])
+    pattern = rng.choice(["descent", "sweep", "eval-then-jac", "mixed"] + (["config", "config", "layers"] if w is not None else []))
+    if pattern in ("config", "layers"):
+        return _make_config_history(rng, w, start, pattern)
     for t in range(nsteps):
         st = {"fresh": False, "set": [], "op": "jac", "idx": None}
         if t > 0 and nfree:
@@ -375,14 +417,97 @@ def make_history(rng, nfree, nsteps=None):
     return {"container": rng.choice(["list", "array"]), "start": start, "steps": steps}
 
 
-def run_history(v, hist):
-    """execute the history on the object `v`; yields (step index, step, copy of the current vector, result | exception)"""
+def apply_cfg(w, cfg):
+    """the witness after the attribute assignments `cfg` (pure; used for the fresh reference object)"""
+    w = dict(w, blocks=[dict(b) for b in w["blocks"]])
+    for attr, val in cfg:
+        if attr == "num_layers":
+            w["layers"] = int(val)
+        elif attr == "cost_method":
+            w["cm"] = val
+        elif attr == "cost_observable":
+            w["obs_shift"] = int(val)
+            w["obs"] = 1
+        elif attr == "add_block":
+            w["blocks"].append(dict(val))
+    return w
+
+
+def apply_cfg_inplace(v, w_after, cfg):
+    """the same assignments on the live object, through its public attributes / add_block"""
+    for attr, val in cfg:
+        if attr == "num_layers":
+            v.num_layers = int(val)
+        elif attr == "cost_method":
+            v.cost_method = CM_NAME[val]
+        elif attr == "cost_observable":
+            v.cost_observable = make_observable(w_after)
+        elif attr == "add_block":
+            v.add_block(make_block(w_after, len(v.blocks), val))
+
+
+def _make_config_history(rng, w, start, pattern):
+    steps = [{"fresh": False, "set": [], "op": rng.choice(["jac", "jac", "eval"]), "idx": None, "cfg": [], "pad": []}]
+    cur = dict(w)
+    for t in range(1, rng.randint(3, 5)):
+        cfg = []
+        if pattern == "layers":
+            newL = cur["layers"] + 1 if (t % 2 == 1 and cur["layers"] < 3) else max(1, cur["layers"] - 1)
+            cfg.append(["num_layers", newL])
+        else:
+            r = rng.random()
+            if r < 0.4:
+                cfg.append(["num_layers", rng.choice([x for x in (1, 2, 3) if x != cur["layers"]])])
+            elif r < 0.55:
+                cfg.append(["cost_method", rng.choice("osb")])
+            elif r < 0.75:
+                cfg.append(["cost_observable", rng.randint(1, 50)])
+            elif len(cur["blocks"]) < 4:
+                k = rng.choice(["h", "u", "n", "p"])
+                cfg.append(["add_block", {"kind": k, "nterms": rng.randint(1, 2) if k == "p" else 0, "initial": rng.random() < 0.25}])
+            else:
+                cfg.append(["num_layers", rng.choice([x for x in (1, 2, 3) if x != cur["layers"]])])
+        cur = apply_cfg(cur, cfg)
+        nf = nfree_of(cur)
+        st = {"fresh": False, "set": [], "op": "jac" if rng.random() < 0.75 else rng.choice(["eval", "state"]), "idx": None,
+              "cfg": cfg, "pad": [round(rng.uniform(-3.0, 3.0), 4) for _ in range(12)]}
+        if nf and st["op"] == "jac":
+            r = rng.random()
+            if r < 0.35:
+                st["idx"] = [nf - 1]                      # a parameter of the LAST layer / block
+            elif r < 0.55:
+                st["idx"] = sorted(rng.sample(range(nf), rng.randint(1, nf)))
+        if nf and rng.random() < 0.4:
+            st["set"] = [[rng.randrange(nf), round(rng.uniform(-3.0, 3.0), 4)]]
+        steps.append(st)
+    return {"container": rng.choice(["list", "array"]), "start": start, "steps": steps}
+
+
+def run_history(w, hist, v=None):
+    """execute the history on ONE object; yields (step index, step, copy of the current vector, result | exception,
+    current configuration as a witness)"""
+    v = v if v is not None else build_vqa(w)
+    cur_w = w
     x = list(hist["start"]) if hist["container"] == "list" else np.array(hist["start"], dtype=float)
     for t, st in enumerate(hist["steps"]):
+        if st.get("cfg"):
+            cur_w = apply_cfg(cur_w, st["cfg"])
+            apply_cfg_inplace(v, cur_w, st["cfg"])
+            nf = nfree_of(cur_w)
+            if nf != len(x):                              # the number of free parameters changed
+                if hist["container"] == "list":
+                    if nf < len(x):
+                        del x[nf:]                        # same list object
+                    else:
+                        x.extend(st.get("pad", [])[:nf - len(x)] + [0.5] * max(0, nf - len(x) - len(st.get("pad", []))))
+                else:
+                    extra = (list(st.get("pad", [])) + [0.5] * nf)[:max(0, nf - len(x))]
+                    x = np.array(list(x[:nf]) + extra, dtype=float)
         if st.get("fresh"):
             x = list(x) if hist["container"] == "list" else np.array(x, dtype=float)
         for i, val in st.get("set", []):
-            x[i] = val                                   # in place: same container object as in the previous call
+            if i < len(x):
+                x[i] = val                               # in place: same container object as in the previous call
         cur = [float(a) for a in x]
         try:
             if st["op"] == "jac":
@@ -394,7 +519,8 @@ def run_history(v, hist):
                 out = v.get_final_state(x).full().ravel()
         except Exception as e:  # canonicalised by the caller
             out = e
-        yield t, st, cur, out
+        yield t, st, cur, out, cur_w
+
 
 class Word:
     """element of the free monoid; the Qobj identity that starts both lists acts as the empty word"""
@@ -500,7 +626,9 @@ class C19(PropertyCheck):
                    "compute_jac / evaluate_parameters / get_final_state call on an object that was used before, with a parameter "
                    "container (list or ndarray) that the caller updated IN PLACE since the previous call, must return what the same "
                    "call returns on a fresh VQA object with a fresh vector (the model is a function of (blocks, layers, vector, "
-                   "indices) only); checked on interleaved histories",
+                   "indices) only); likewise the public attributes num_layers, cost_method, cost_observable and the block list (add_block) "
+                   "ARE the configuration: after assigning them every call must equal the call on a fresh VQA built with the current "
+                   "configuration (no memoised series/circuit may survive); checked on interleaved histories",
                    "observable cost mode (cost_method OBSERVABLE with cost_observable set); the theorem is about the real part of the "
                    "cost, which is the cost for a Hermitian observable (cost_real)",
                    "function blocks (types.FunctionType) are outside the property's class: compute_jac raises TypeError for them (modelled)"]
@@ -510,7 +638,9 @@ class C19(PropertyCheck):
             "stream (wrong vector length, negative/duplicate/out-of-range indices, 0-term Hamiltonians, function blocks), the cost "
             "configurations (cost_method x observable set/None x cost_func set/None), special parameter vectors (all zeros, equal / "
             "vanishing coordinates, multiples of pi/2, coordinates 1e-12 apart; Pauli-string multi-parameter blocks whose summed "
-            "Hamiltonian is degenerate there); histories on one VQA object with one list/ndarray updated in place between interleaved "
+            "Hamiltonian is degenerate there); every ordering of small Pauli-string sets (identity and constant terms included) as 3-4 terms of a "
+            "ParameterizedHamiltonian; histories on one VQA object with one list/ndarray updated in place and public attributes "
+            "(num_layers, cost_method, cost_observable, add_block) assigned between interleaved "
             "compute_jac / evaluate_parameters / get_final_state calls (each call = the call on a fresh object); every in-class case that returns is also "
             "re-evaluated numerically (propagators, derivative matrices, cost, jacobian values); "
             "non-trivial = at least one free parameter and (>= 2 series entries or a multi-parameter block)")
@@ -763,6 +893,14 @@ class C19(PropertyCheck):
                 vecs = list(special_angles(rng, nfree, 40 if ctx.thorough else 14))
             for a in vecs:
                 self._compare_special(ctx, res, w, v, a, tags=["pauli"])
+        # 3-4 Pauli-string terms (identity and constant terms included) in every ordering: consecutive terms may commute
+        # while a non-consecutive pair does not
+        for n, w in enumerate(commuting_witnesses()):
+            v = build_vqa(w)
+            nfree = nfree_of(w)
+            self._compare(ctx, res, w, v, nfree, None, as_array=bool(n % 2), tags=["term-orderings"])
+            if n % 4 == 0:
+                self._compare_special(ctx, res, w, v, [0.7] * nfree, tags=["term-orderings"])
         # random-Hermitian structures with a multi-parameter block: zeros, equal, switched-off terms, 1e-12 apart
         k = 0
         for blocks in structures(2):
@@ -782,24 +920,25 @@ class C19(PropertyCheck):
 
     def _history_pass(self, ctx, res):
         """one VQA object, one parameter container updated in place between calls (list and ndarray), interleaved
-        compute_jac (all / subsets) / evaluate_parameters / get_final_state, also a fresh container with equal values.
-        The model is stateless: every call must equal the same call on a fresh VQA object with a fresh vector, and (in class)
-        the numerical re-evaluation of the Lean semantics at the CURRENT vector."""
+        compute_jac (all / subsets) / evaluate_parameters / get_final_state, also a fresh container with equal values, and
+        assignments to the object's public attributes between calls (num_layers up/down, cost_method, cost_observable,
+        add_block).  The model is stateless: every call must equal the same call on a fresh VQA object built with the CURRENT
+        configuration and a fresh vector, and (in class) the numerical re-evaluation of the Lean semantics at the current vector."""
         rng = ctx.rng
-        for n in range(160 if ctx.thorough else 45):
+        for n in range(200 if ctx.thorough else 60):
             w = pauli_witness(rng, rng.randint(0, 10 ** 4)) if n % 3 == 0 else self._random_witness(rng, maxblocks=3)
             nfree = nfree_of(w)
             if nfree == 0:
                 continue
-            hist = make_history(rng, nfree)
-            v = build_vqa(w)
-            enc = enc_blocks(w["blocks"])
-            L = w["layers"]
-            for t, st, cur, out in run_history(v, hist):
-                inp = {"nq": w["nq"], "layers": L, "blocks": enc, "seed": w.get("seed"), "history": hist, "step": t}
+            hist = make_history(rng, nfree, w=w)
+            for t, st, cur, out, cw in run_history(w, hist):
+                enc, L, nf = enc_blocks(cw["blocks"]), cw["layers"], nfree_of(cw)
+                inp = {"nq": w["nq"], "layers": w["layers"], "blocks": enc_blocks(w["blocks"]), "seed": w.get("seed"),
+                       "history": hist, "step": t}
                 wit = dict(w, history=dict(hist, steps=hist["steps"][:t + 1]))
-                res.case(inp, nontrivial=t > 0, tags=["history", "history-" + hist["container"], "history-op=" + st["op"]])
-                fresh = build_vqa(w)
+                res.case(inp, nontrivial=t > 0, tags=["history", "history-" + hist["container"], "history-op=" + st["op"]] +
+                         (["history-cfg=" + c[0] for c in st.get("cfg", [])]))
+                fresh = build_vqa(cw)
                 try:
                     if st["op"] == "jac":
                         ref = np.atleast_1d(np.asarray(fresh.compute_jac(list(cur), st["idx"]) if st.get("idx") is not None
@@ -810,29 +949,32 @@ class C19(PropertyCheck):
                         ref = fresh.get_final_state(list(cur)).full().ravel()
                 except Exception as e:
                     ref = e
+                cfgs = f" after assigning {st['cfg']}" if st.get("cfg") else ""
                 if isinstance(out, Exception) or isinstance(ref, Exception):
                     a = classify_exc(out) if isinstance(out, Exception) else "ok"
                     b = classify_exc(ref) if isinstance(ref, Exception) else "ok"
                     if a != b:
-                        res.disagree(inp, b, a, f"history step {t} ({st['op']}): verdict differs from the same call on a fresh VQA", wit)
+                        res.disagree(inp, b, a, f"history step {t} ({st['op']}{cfgs}): verdict differs from the same call on a fresh "
+                                     "VQA with the current configuration", wit)
                         break
                     continue
                 if not close(out, ref, 1e-12):
                     res.disagree(inp, np.round(np.real(ref), 9).tolist(), np.round(np.real(out), 9).tolist(),
-                                 f"history step {t}: {st['op']} on the reused object/container (updated in place) differs from the "
-                                 f"same call on a fresh VQA at the current vector {cur}", wit)
+                                 f"history step {t}: {st['op']}{cfgs} on the reused object/container differs from the same call on a "
+                                 f"fresh VQA with the current configuration (layers={L}, blocks={enc}) at the current vector {cur}", wit)
                     break
-                if st["op"] == "jac" and self.in_class(w):
+                if st["op"] == "jac" and self.in_class(cw) and len(cur) == nf:
                     idxs = "default" if st.get("idx") is None else ",".join(map(str, st["idx"]))
                     model, circ_line = ctx.driver("drv_vqa").run(
-                        [f"jac layers={L} blocks={enc} nangles={nfree} idx={idxs} orig=0", f"circuit layers={L} blocks={enc} nangles={nfree}"])
+                        [f"jac layers={L} blocks={enc} nangles={nf} idx={idxs} orig=0", f"circuit layers={L} blocks={enc} nangles={nf}"])
                     # derivative matrices of THIS call on the reused object are not recorded (no wrappers inside a history): use
-                    # a recording run on the fresh object for them, the jacobian values are the reused object's
-                    status, jac2, log = instrumented_jac(build_vqa(w), list(cur), st.get("idx"))
+                    # a recording run on a fresh object for them, the jacobian values are the reused object's
+                    status, jac2, log = instrumented_jac(build_vqa(cw), list(cur), st.get("idx"))
                     if status == "ok" and model.startswith("ok"):
-                        bad = self._semantic(ctx, w, fresh, list(cur), model, log, out, circ_line)
+                        bad = self._semantic(ctx, cw, fresh, list(cur), model, log, out, circ_line)
                         if bad:
-                            res.disagree(inp, bad[1], bad[2], f"history step {t}: matrix semantics at the current vector: " + bad[0], wit)
+                            res.disagree(inp, bad[1], bad[2], f"history step {t}{cfgs}: matrix semantics at the current vector and "
+                                         "configuration: " + bad[0], wit)
                             break
 
     def _compare_costcfg(self, ctx, res):
@@ -900,7 +1042,7 @@ class C19(PropertyCheck):
         """the property's class: Hamiltonian blocks, ParameterizedHamiltonian with >= 1 term, fixed unitaries, native gates"""
         if w.get("cm", "o") != "o" or not w.get("obs", 1):
             return False
-        return all(b["kind"] in "hun" or (b["kind"] == "p" and (b["nterms"] >= 1 or b.get("paulis"))) for b in w["blocks"])
+        return all(b["kind"] in "hun" or (b["kind"] == "p" and b["nterms"] >= 1) for b in w["blocks"])
 
     def oracle_replay(self, ctx, w):
         """the property on the real code: shape and values of compute_jac against central differences"""
@@ -935,32 +1077,36 @@ class C19(PropertyCheck):
         return False, f"{len(want)} entries agree with central differences"
 
     def _replay_history(self, w):
-        """one VQA object, one container updated in place: every compute_jac of the history against central differences of
-        the cost at the CURRENT vector (differences taken on a fresh object with fresh vectors)"""
-        v = build_vqa(w)
-        nfree = v.get_free_parameters_num()
+        """one VQA object, one container updated in place, public attributes assigned between calls: every compute_jac of the
+        history against central differences of the cost at the CURRENT vector and configuration (differences taken on a fresh
+        object built with the current configuration, with fresh vectors)"""
         hist = w["history"]
-        if len(hist["start"]) != nfree:
+        if len(hist["start"]) != nfree_of(w):
             return False, "parameter vector of the wrong length (not an input of the property)"
         njac = 0
-        for t, st, cur, out in run_history(v, hist):
+        for t, st, cur, out, cw in run_history(w, hist):
+            if not self.in_class(cw):
+                continue                                   # e.g. cost_method assigned to STATE: outside the property
+            nfree = nfree_of(cw)
+            cfgs = f", after assigning {st['cfg']}" if st.get("cfg") else ""
             if st["op"] != "jac":
                 if isinstance(out, Exception):
-                    return True, f"history step {t} ({st['op']}) raised {type(out).__name__}: {out}"
+                    return True, f"history step {t} ({st['op']}{cfgs}) raised {type(out).__name__}: {out}"
                 continue
             if isinstance(out, Exception):
-                return True, f"history step {t}: compute_jac raised {type(out).__name__}: {out}"
+                return True, f"history step {t}{cfgs}: compute_jac raised {type(out).__name__}: {out}"
             idx = st.get("idx")
             want = list(range(nfree)) if idx is None else sorted({i for i in idx if 0 <= i < nfree})
             if out.shape != (len(want),):
-                return True, f"history step {t}: jacobian has {out.shape} entries for {len(want)} requested free parameters"
-            fd = fd_gradient(build_vqa(w), list(cur), want)
+                return True, (f"history step {t}{cfgs}: jacobian has {out.shape[0]} entries for {len(want)} requested free parameters "
+                              f"{want if idx is not None else ''} (of {nfree}; layers={cw['layers']}, blocks={enc_blocks(cw['blocks'])})")
+            fd = fd_gradient(build_vqa(cw), list(cur), want)
             err = np.abs(out - fd)
             tol = 1e-6 + 1e-5 * np.abs(fd)
             njac += 1
             if np.any(err > tol):
                 j = int(np.argmax(err - tol))
-                return True, (f"history step {t} ({hist['container']} updated in place): entry {j} (parameter {want[j]}): analytic "
+                return True, (f"history step {t} ({hist['container']} reused{cfgs}): entry {j} (parameter {want[j]}): analytic "
                               f"{out[j]:.9g} vs finite difference {fd[j]:.9g} at the current vector {cur}")
         return False, f"{njac} jacobians of the history agree with central differences at their current vectors"
 
@@ -968,8 +1114,12 @@ class C19(PropertyCheck):
         for _ in range(20):
             w = pauli_witness(rng, rng.randint(0, 10 ** 4)) if rng.random() < 0.3 else self._random_witness(rng, maxblocks=3)
             if nfree_of(w):
-                return dict(w, history=make_history(rng, nfree_of(w)))
+                return dict(w, history=make_history(rng, nfree_of(w), w=w))
         return None
+
+    def _commuting_sample(self, rng, count):
+        ws = list(commuting_witnesses())
+        return ws if count >= len(ws) else rng.sample(ws, count)
 
     def _oracle_witness(self, rng):
         if rng.random() < 0.3:
@@ -998,7 +1148,13 @@ class C19(PropertyCheck):
             f, d = self.oracle_replay(ctx, w)
             if f:
                 yield w, d
-            if time.time() - t0 > budget_s / 3:
+            if time.time() - t0 > budget_s / 4:
+                break
+        for w in self._commuting_sample(ctx.rng, 60):
+            f, d = self.oracle_replay(ctx, w)
+            if f:
+                yield w, d
+            if time.time() - t0 > budget_s / 2:
                 break
         for _ in range(40):
             w = self._history_witness(ctx.rng)
@@ -1006,7 +1162,7 @@ class C19(PropertyCheck):
                 f, d = self.oracle_replay(ctx, w)
                 if f:
                     yield w, d
-            if time.time() - t0 > 2 * budget_s / 3:
+            if time.time() - t0 > 3 * budget_s / 4:
                 break
         for blocks in structures(2):
             for L in (1, 2):
@@ -1024,6 +1180,10 @@ class C19(PropertyCheck):
                 yield w, d
 
     def oracle_always(self, ctx):
+        for w in self._commuting_sample(ctx.rng, 40 if ctx.thorough else 10):
+            f, d = self.oracle_replay(ctx, w)
+            if f:
+                yield w, d
         for w in self._special_witnesses(ctx.rng, 12 if ctx.thorough else 4):
             f, d = self.oracle_replay(ctx, w)
             if f:
